@@ -2,27 +2,32 @@
    what attribute assignment, the tlv_type setter, sub-object edits, pack() / value / generate_tlv()
    do to ONE object, step by step.  Definitions only.  The pure functions of Model/Lv.v and
    Model/Tlv.v are reused; this file adds the state the classes keep between calls:
-     CfdpLv             value, value_len (both plain attributes; value_len is written by __init__ only)
+     CfdpLv             value (plain attribute; value_len is derived from it)
      CfdpTlv            _tlv_type (setter), _value (no setter), value_len
      Entity/Flow/Msg    tlv (plain attribute holding a CfdpTlv)
      FaultHandler...    condition_code, handler_code, tlv (three independent plain attributes)
      FileStore*Tlv      action_code, [status_code,] first_file_name, second_file_name, [filestore_msg,]
-                        tlv (the generic TLV cached by generate_tlv / pack / value; None before)     *)
+                        tlv (the generic TLV built by the last generate_tlv / pack / value; None before)     *)
 From Coq Require Import ZArith List Bool.
 From SP Require Import Base.Result Base.Bytes Base.Utf8 Model.Lv Model.Tlv.
 Import ListNotations.
 Open Scope Z_scope.
 
-(* ---- CfdpLv as a mutable object ---- *)
-Record lvh := { lh_value : bytes; lh_len : Z }.
-Definition lvh_of (v : lv) : lvh := {| lh_value := v; lh_len := len v |}.
+(* ---- CfdpLv as a mutable object ----
+   `value` is a plain attribute; `value_len` is the property len(self.value) (since the repair 1f544ac: it used to be
+   stored by __init__ and went stale on assignment).  Assignment does not validate, so the value may exceed 255
+   octets; pack() then fails in bytearray.append. *)
+Definition lvh := bytes.
+Definition lvh_of (v : lv) : lvh := v.
+Definition lh_value (l : lvh) : bytes := l.
+Definition lh_len (l : lvh) : Z := len l.
 Definition lvh_packet_len (l : lvh) : Z := lh_len l + 1.
 (* pack: packet.append(self.value_len); if self.value_len > 0: packet.extend(self.value) *)
 Definition lvh_pack (l : lvh) : res bytes :=
   do a <- ba_append [] (lh_len l);
   Ok (a ++ (if lh_len l >? 0 then lh_value l else [])).
 (* lv.value = v : plain attribute *)
-Definition lvh_set_value (l : lvh) (v : bytes) : lvh := {| lh_value := v; lh_len := lh_len l |}.
+Definition lvh_set_value (l : lvh) (v : bytes) : lvh := v.
 
 (* ---- FileStoreRequestTlv / FileStoreResponseTlv as mutable objects ---- *)
 Record fsh := {
@@ -52,12 +57,9 @@ Definition fsh_build (s : fsh) : res tlv :=
     do v <- common_packer (fs_action s) 0 (fs_first s) (fs_second s);
     tlv_new TLV_FILESTORE_REQUEST v.
 
-(* generate_tlv: if self.tlv is None: self.tlv = self._build_tlv() *)
+(* generate_tlv: self.tlv = self._build_tlv()  (since the repair 98690eb: it used to keep the TLV built first) *)
 Definition fsh_generate (s : fsh) : res fsh :=
-  match fs_cache s with
-  | Some _ => Ok s
-  | None => do t <- fsh_build s; Ok (fsh_with_cache s (Some t))
-  end.
+  do t <- fsh_build s; Ok (fsh_with_cache s (Some t)).
 
 Definition fsh_packet_len (s : fsh) : Z :=
   common_packet_len (fs_action s) (fs_first s) (fs_second s)
